@@ -167,6 +167,21 @@ impl FileUploadSession {
         }))
     }
 
+    /// Verification hook: as `new_with_client`, for a dry-run session (the given client stands in for the remote
+    /// client, which turns uploads of a dry run into no-ops).
+    #[cfg(xet_verif)]
+    pub async fn new_with_client_dry_run(
+        config: Arc<TranslatorConfig>,
+        threadpool: Arc<ThreadPool>,
+        client: Arc<dyn Client + Send + Sync>,
+    ) -> Result<Arc<FileUploadSession>> {
+        let session = Self::new_with_client(config.clone(), threadpool, client.clone()).await?;
+        let shard_interface = SessionShardInterface::new(config, client, true).await?;
+        let mut session = Arc::try_unwrap(session).map_err(|_| DataProcessingError::InternalError("session shared".to_owned()))?;
+        session.shard_interface = shard_interface;
+        Ok(Arc::new(session))
+    }
+
     pub fn start_clean(self: &Arc<Self>, file_name: String) -> SingleFileCleaner {
         SingleFileCleaner::new(file_name, self.clone())
     }
